@@ -205,7 +205,7 @@ fn proof_mutants(w: &Worlds, home: &InFlight) -> Vec<Mutant> {
                 out.push(Mutant { label: format!("reselect:drop-one(valid-proof)#{:?} from {:?}", sel, nums), data: build(&sel) });
                 let mut sel = nums.clone();
                 sel.insert(i, nums[i]);
-                out.push(Mutant { label: format!("reselect:duplicate-one(valid-proof)#{:?}", sel), data: build(&sel) });
+                out.push(Mutant { label: format!("reselect:duplicate-one(valid-proof)#{:?} from {:?}", sel, nums), data: build(&sel) });
                 for x in lo..last {
                     if nums.contains(&x) {
                         continue;
@@ -214,7 +214,7 @@ fn proof_mutants(w: &Worlds, home: &InFlight) -> Vec<Mutant> {
                     sel.remove(i);
                     sel.push(x);
                     sel.sort_unstable();
-                    out.push(Mutant { label: format!("reselect:replace-one(valid-proof)#{:?}", sel), data: build(&sel) });
+                    out.push(Mutant { label: format!("reselect:replace-one(valid-proof)#{:?} from {:?}", sel, nums), data: build(&sel) });
                 }
             }
             for x in lo..last {
@@ -224,12 +224,40 @@ fn proof_mutants(w: &Worlds, home: &InFlight) -> Vec<Mutant> {
                 let mut sel = nums.clone();
                 sel.push(x);
                 sel.sort_unstable();
-                out.push(Mutant { label: format!("reselect:add-one(valid-proof)#{:?}", sel), data: build(&sel) });
+                out.push(Mutant { label: format!("reselect:add-one(valid-proof)#{:?} from {:?}", sel, nums), data: build(&sel) });
             }
             // every section shifted down by one block
             if nums[0] > 0 {
                 let sel: Vec<u64> = nums.iter().map(|n| n - 1).collect();
-                out.push(Mutant { label: format!("reselect:all-shifted-down(valid-proof)#{:?}", sel), data: build(&sel) });
+                out.push(Mutant { label: format!("reselect:all-shifted-down(valid-proof)#{:?} from {:?}", sel, nums), data: build(&sel) });
+            }
+        }
+    }
+    // the whole answer taken from another chain of the world (same numbers, that chain's headers
+    // and its valid MMR proof), under the EXACT requested last header whose chain root (and
+    // optionally extension) was replaced by the other chain's
+    if let Some(hc) = home_chain {
+        let last: u64 = m.last_header().header().raw().number().unpack();
+        let nums: Vec<u64> = headers.iter().map(|h| h.header().raw().number().unpack()).collect();
+        for (ci, chain) in chains.iter().enumerate() {
+            if ci == hc || last > chain.tip_number() || last == 0 || nums.iter().any(|n| *n >= last) {
+                continue;
+            }
+            let mut uniq = nums.clone();
+            uniq.sort_unstable();
+            uniq.dedup();
+            let hs: Vec<packed::VerifiableHeader> = nums.iter().map(|n| chain.vh(*n)).collect();
+            let foreign = chain.vh(last);
+            for with_ext in [false, true] {
+                let mut lh = m.last_header().as_builder().parent_chain_root(foreign.parent_chain_root());
+                if with_ext {
+                    lh = lh.extension(foreign.extension());
+                }
+                let data = wrap(m.clone().as_builder().last_header(lh.build()).headers(hs.clone().pack()).proof(chain.proof(last, &uniq)).build());
+                if data.as_ref() == home.data.as_ref() {
+                    continue;
+                }
+                out.push(Mutant { label: format!("foreign-chain{}-under-requested-last-header{}", ci, if with_ext { "+extension" } else { "" }), data });
             }
         }
     }
@@ -266,6 +294,26 @@ fn proof_mutants(w: &Worlds, home: &InFlight) -> Vec<Mutant> {
         }
     }
     out
+}
+
+/// A server decides itself whether an answer carries a reorg section (the last-N headers before
+/// the start number: it sends them when the start block is not on its chain); the client cannot
+/// tell which is right without a proof for the start block, which the protocol does not carry.
+/// So a selection that differs from the honest one only by the *complete* reorg section being
+/// there or not is another well-shaped answer, not an altered one. (Only with last-N = 1, or a
+/// start number of 1, is this a single-site change.)
+fn legal_alternative(honest: &[u64], sel: &[u64], start: u64, last_n: u64) -> bool {
+    let above = |v: &[u64]| v.iter().filter(|n| **n >= start).cloned().collect::<Vec<u64>>();
+    if above(honest) != above(sel) {
+        return false;
+    }
+    let below: Vec<u64> = sel.iter().filter(|n| **n < start).cloned().collect();
+    let full: Vec<u64> = (start.saturating_sub(last_n.min(start))..start).collect();
+    below.is_empty() || below == full
+}
+
+fn parse_nums(s: &str) -> Vec<u64> {
+    s.trim().trim_start_matches('[').trim_end_matches(']').split(',').filter_map(|x| x.trim().parse().ok()).collect()
 }
 
 /// Selections that differ from `nums` in one place (all with a valid proof later): one number
@@ -447,7 +495,11 @@ pub(crate) fn request_grid(env: &Env, report: &mut Report, constant_difficulty: 
                             }
                             Ok(()) => {
                                 let after = trusted_view(cur.as_ref().unwrap());
-                                if after != before {
+                                if after != before && legal_alternative(&honest, &sel, start, last_n) {
+                                    report.count("request_grid/accepted_alternative_answers(reorg section present or not)", 1);
+                                    cur = build(cur.take());
+                                    rebuilt = true;
+                                } else if after != before {
                                     report.violation(
                                         format!("request-grid/mutant-changed-trusted-state/reselect:{}(valid-proof)", class),
                                         format!("{} honest selection {:?}, accepted selection {:?} (valid MMR proof)", label, honest, sel),
@@ -507,6 +559,84 @@ pub(crate) fn request_grid(env: &Env, report: &mut Report, constant_difficulty: 
                 }
             }
         }
+    }
+}
+
+/// The proof-less shortcut: a proven peer announces the direct child of its proved header. The
+/// child is trusted on its chain root agreeing with the proven parent (total difficulty, end
+/// number). Every forged child (a PoW-valid header that extends the proved header and commits to
+/// a chain root with an altered difficulty / number) must leave the trusted view untouched; the
+/// honest child must be accepted.
+fn child_pass(env: &Env, report: &mut Report, spec: &str, params: &Params) {
+    use ckb_types::{core::EpochNumberWithFraction, packed, U256};
+    let w = c10::worlds_with(env, params);
+    let mut old: Option<Sim> = None;
+    // (label, total difficulty delta, end number delta); None = the honest child
+    let variants: Vec<(&str, Option<(i8, i8)>)> = vec![
+        ("honest", None),
+        ("td+1", Some((1, 0))),
+        ("td-1", Some((-1, 0))),
+        ("td=2^100", Some((100, 0))),
+        ("end+1", Some((0, 1))),
+        ("end-1", Some((0, -1))),
+        ("td+1,end+1", Some((1, 1))),
+        ("td-1,end-1", Some((-1, -1))),
+    ];
+    for (label, v) in variants {
+        let (mut sim, _) = match c10::try_build_with(env, &w, params, Scn::Ready, old.take()) {
+            Ok(r) => r,
+            Err(s) => {
+                old = Some(s);
+                continue;
+            }
+        };
+        let n = params.h1;
+        let chain = &w.main;
+        let parent_hash = chain.blocks[n as usize].hash();
+        let vh = match v {
+            None => chain.vh(n + 1),
+            Some((dtd, dend)) => {
+                let true_td: U256 = chain.tds[n as usize].clone();
+                let td = match dtd {
+                    1 => true_td.clone() + U256::one(),
+                    -1 => true_td.clone() - U256::one(),
+                    100 => U256::one() << 100,
+                    _ => true_td.clone(),
+                };
+                let end = (n as i64 + dend as i64) as u64;
+                let root = chain.roots[n as usize].clone().as_builder().total_difficulty(td.pack()).end_number(end.pack()).build();
+                let (e, i, l, compact) = chain.plan.locate(n + 1);
+                crate::verif::world::seal_vh(&env.consensus, n + 1, root, compact, EpochNumberWithFraction::new(e, i, l), crate::verif::world::BASE_TS + (n + 1) * 10 + 3, parent_hash.clone())
+            }
+        };
+        let msg = packed::LightClientMessage::new_builder().set(packed::SendLastState::new_builder().last_header(vh).build()).build();
+        let before = trusted_view(&sim);
+        let r = crate::verif::props::panics::catch(|| {
+            sim.deliver_msg(InFlight { proto: Proto::LightClient, peer: 1, data: msg.as_bytes(), note: format!("SendLastState(child, {})", label) });
+        });
+        report.count("transitions", 1);
+        report.count("child_shortcut/deliveries", 1);
+        if let Err(p) = r {
+            report.violation(format!("abort/{}", p.site()), format!("{} [child shortcut, {}]", p.describe(), label), json!({"scenario": "child-shortcut", "spec": spec, "variant": label}));
+            continue;
+        }
+        let after = trusted_view(&sim);
+        if v.is_none() {
+            if after == before {
+                report.violation("child-shortcut/honest-child-not-accepted".to_owned(), format!("the honest child of the proved header was not accepted: {:?}", sim.bans()), json!({"scenario": "child-shortcut", "spec": spec}));
+            } else {
+                report.count("child_shortcut/honest_accepted", 1);
+            }
+        } else if after != before {
+            report.violation(
+                format!("mutant-changed-trusted-state/child-shortcut/{}", label),
+                format!("a child of the proved header whose chain root was altered ({}) was accepted without a proof: trusted view changed", label),
+                json!({"scenario": "child-shortcut", "spec": spec, "params": format!("{:?}", params), "variant": label, "message_hex": hex(&msg.as_bytes()), "view_before": before, "view_after": after}),
+            );
+        } else {
+            report.count("child_shortcut/forged_rejected", 1);
+        }
+        old = Some(sim);
     }
 }
 
@@ -604,8 +734,15 @@ pub(crate) fn run(opts: &Opts, report: &mut Report) {
     // request grid: (constant / wavy difficulty) x last-N x 8 slices
     let grid_cfgs: Vec<(bool, u64)> = if thorough { vec![(true, 2), (false, 2), (true, 3), (false, 3), (true, 1)] } else { vec![(true, 2), (false, 2)] };
     const GRID_SLICES: usize = 8;
-    let items = sweep_items + grid_cfgs.len() * GRID_SLICES;
+    let grid_items = grid_cfgs.len() * GRID_SLICES;
+    let items = sweep_items + grid_items + grid.len();
     let worker = crate::verif::props::shard::run("C01", opts, report, items, 16, |item, report| {
+        if item >= sweep_items + grid_items {
+            let (spec, params) = &grid[item - sweep_items - grid_items];
+            let env = Env::new(spec);
+            child_pass(&env, report, spec, params);
+            return;
+        }
         if item >= sweep_items {
             let g = item - sweep_items;
             let (constant, last_n) = grid_cfgs[g / GRID_SLICES];
@@ -672,6 +809,7 @@ pub(crate) fn run(opts: &Opts, report: &mut Report) {
         let mut by_class: BTreeMap<String, u64> = BTreeMap::new();
         let mut honest_accepted = 0u64;
         let mut honest_total = 0u64;
+        let mut alternatives = 0u64;
         let wref = &w;
         let stats = {
             let mut judge = |ctx: &Ctx, out: &Outcome| {
@@ -693,7 +831,18 @@ pub(crate) fn run(opts: &Opts, report: &mut Report) {
                         }
                         let class = mutant_class(ctx);
                         *by_class.entry(class.clone()).or_insert(0) += 1;
-                        if changed {
+                        let alternative = changed
+                            && ctx.label.starts_with("reselect:")
+                            && matches!(ctx.scn, Scn::NewProofSampled | Scn::NewProofShort | Scn::ReorgProof)
+                            && ctx
+                                .label
+                                .split_once('#')
+                                .and_then(|(_, rest)| rest.split_once(" from "))
+                                .map(|(sel, nums)| legal_alternative(&parse_nums(nums), &parse_nums(sel), params.h1, params.last_n))
+                                .unwrap_or(false);
+                        if alternative {
+                            alternatives += 1;
+                        } else if changed {
                             report.violation(
                                 format!("mutant-changed-trusted-state/{:?}/{}", ctx.scn, class),
                                 format!(
@@ -768,6 +917,7 @@ pub(crate) fn run(opts: &Opts, report: &mut Report) {
         report.count("rebuilds", stats.rebuilds);
         report.count("deliveries_changing_any_state", stats.state_changes);
         report.count("deliveries_changing_trusted_view", stats.view_changes);
+        report.count("accepted_alternative_answers(reorg section present or not)", alternatives);
         report.count("honest_controls", honest_total);
         report.count("honest_controls_accepted", honest_accepted);
         report.count("proof_mutants", by_class.values().sum());
